@@ -104,10 +104,29 @@ def sequence(r, thorough):
     return lines
 
 
+def fixed_sequences():
+    """deterministic sequences that run first on every check: calls that must be rejected although they look almost valid"""
+    L, v = pipeline.lab, pipeline.val
+    a = ["site %s 1 2" % L("X"), "site %s 1 1" % L("Y"), "site %s 1 3" % L("Z"), "site %s 2 2" % L("W"), "dumplattice"]
+    # two-site presets between sites that agree in the number of orbitals but not of spins (and the other way round)
+    for kind in ("szsz", "ss"):
+        for p, q in (("X", "Y"), ("Y", "X"), ("X", "Z"), ("X", "W"), ("W", "X")):
+            a += ["preset %s %s %s %s" % (kind, L(p), L(q), v(1.0)), "dumplattice"]
+    a += ["preset hop4 %s %s %s" % (L("X"), L("Y"), v(0.5)), "dumplattice", "preset hop4 %s %s %s" % (L("X"), L("W"), v(0.5)), "dumplattice"]
+    # user terms on a two-orbital, two-spin site: every (orbital, spin) with 0 <= orbital <= 2, 0 <= spin <= 3
+    b = ["site %s 2 2" % L("W"), "site %s 1 2" % L("X"), "dumplattice"]
+    for o in range(3):
+        for sp in range(4):
+            b += ["term %s 2 1 %s %d %d 0 %s 0 0" % (v(0.5), L("W"), o, sp, L("X")), "dumplattice",
+                  "term %s 2 1 %s 0 0 0 %s %d %d" % (v(0.25), L("X"), L("W"), o, sp), "dumplattice"]
+    b += ["term %s 2 1 %s 0 0 0 %s 0 0" % (v(0.5), L("W"), L("nope")), "dumplattice"]
+    return [a, b]
+
+
 def correspondence(ctx):
     r = ctx.rng
     thorough = ctx.tier == "thorough"
-    scripts = [sequence(r, thorough) for _ in range(1500 if thorough else 150)]
+    scripts = fixed_sequences() + [sequence(r, thorough) for _ in range(1500 if thorough else 150)]
     for variant in (("real", "complex") if thorough else ("real",)):
         res = pipeline.run_batch(scripts if variant == "real" else scripts[:200], variant, numeric=False)
         pipeline.collect(ctx, res, ["C20"])
